@@ -2779,8 +2779,9 @@ class Partitions(Expr):
     def _simplify_down(self):
         from dask_expr import SetIndexBlockwise
 
+        # MapOverlap is lowered to an operation that reads neighbouring partitions
         if isinstance(self.frame, Blockwise) and not isinstance(
-            self.frame, (BlockwiseIO, Fused, SetIndexBlockwise)
+            self.frame, (BlockwiseIO, Fused, SetIndexBlockwise, MapOverlap)
         ):
             operands = [
                 (
